@@ -190,6 +190,8 @@ func xOp(toks []string) (string, bool) {
 		return xinf(toks), true
 	case "xkern":
 		return xkern(toks), true
+	case "xcircleindex":
+		return xcircleindex(toks), true
 	}
 	return "", false
 }
